@@ -429,6 +429,8 @@ pub fn main(args: &util::Args) {
     for (class, name, src) in ILL_UNIFY {
         let id = format!("illu:{}:{}", class, name);
         let kind = format!("unify-{}", class);
+        // a stack overflow in the typer kills this process: leave the name of the running program behind
+        let _ = std::fs::write(args.out.join("c03.progress"), format!("{}\t{}\t{}\n", id, kind, esc_line(src)));
         let st = run_in(&dir, src);
         let (outcome, stage, msg) = match &st.stop {
             None => ("accepted", "", String::new()),
@@ -512,6 +514,7 @@ pub fn main(args: &util::Args) {
     let _ = std::fs::remove_dir_all(&dir);
     let _ = std::fs::create_dir_all(&args.out);
     std::fs::write(args.out.join("c03.cases.tsv"), out).unwrap();
+    let _ = std::fs::remove_file(args.out.join("c03.progress"));
 }
 
 #[allow(dead_code)]
